@@ -133,7 +133,7 @@ func (x *Exec) callExternal(st *State, call *ast.CallExpr, callee *types.Func, p
 		}
 		return out
 	case "runtime.NumCPU":
-		n := x.fresh("numcpu", SInt)
+		n := x.declareOnce("numcpu", SInt) // constant for the life of the process
 		st.assume(Cmp(">=", n, Int(1)), "NumCPU>=1")
 		return []Value{sc(n)}
 	case "sync/atomic.AddInt32":
@@ -149,7 +149,6 @@ func (x *Exec) callExternal(st *State, call *ast.CallExpr, callee *types.Func, p
 		old := asTerm(x.readElem(st, b, ae.idx))
 		nv := Add(old, asTerm(as[1]))
 		x.writeElem(st, b, ae.idx, sc(nv))
-		x.ghostBump(st, "atomic", OpaqueV{T: Int(0)})
 		return []Value{sc(nv)}
 	case "sync.*WaitGroup.Add":
 		as := args()
